@@ -36,10 +36,10 @@ func docCase(c Case, e *env) (*docGen, string, string) {
 		// attribute noise (handlers, id/class, data-*, aria-hidden="false" ...) on half of the pages: none of it
 		// changes what is visible or how the page nests
 		g.noise = c.ID%2 == 1
+	case "C08":
+		g.mediaSeps = true
 	case "C09":
 		g.noTitle = c.ID%3 == 0
-	case "C08":
-		// C08 pages carry no markers of other mechanisms; place rotates as usual
 	}
 	g.wrapIn = c.str("wrap", "")
 	if c.boolean("canonical", false) {
